@@ -18,6 +18,31 @@ class Undecided(Exception):
     """The executor met something outside its subset: every obligation of the function is undecided."""
 
 
+ANY = object()
+
+
+def only_kw(what, kw, **accepted):
+    """the keyword arguments a library-contract entry does NOT model must not be passed: a keyword that is silently
+    ignored would make the contract describe another call than the one in the code.  accepted: name -> tuple of values
+    whose meaning the contract covers (usually the library default), or ANY."""
+    import os
+
+    for k, v in kw.items():
+        ok = accepted.get(k, ())
+        if ok is ANY:
+            continue
+        try:
+            good = any((v is a) or (type(v) is type(a) and v == a) for a in ok)
+        except Exception:
+            good = False
+        if not good:
+            if os.environ.get("VERIF_KWLOG"):
+                with open(os.environ["VERIF_KWLOG"], "a") as f:
+                    f.write(f"{what}\t{k}\t{v!r}\n")
+                continue
+            raise Undecided(f"{what}: keyword {k}={v!r} is outside the library contract")
+
+
 class SymRaise(Exception):
     """A `raise` in the interpreted program."""
 
